@@ -54,7 +54,7 @@ CASES = {"quick": 2600, "thorough": 60000, "search": 20000}
 RULE = ("random update requests (1-4 operations: INSERT/DELETE DATA, DELETE WHERE, DELETE/INSERT..WHERE with WITH / USING / "
         "USING NAMED / GRAPH templates and patterns — WHERE clauses: BGP blocks with a FILTER / UNION / sub-select, or (a fifth of "
         "the requests) full-algebra patterns with OPTIONAL, MINUS, UNION, FILTER, BIND, VALUES, GRAPH, sub-select, EXISTS — "
-        "CLEAR, DROP, ADD, MOVE, COPY) over datasets with 0-3 named graphs "
+        "CLEAR, DROP, ADD, MOVE, COPY, and (7 %) CREATE / LOAD of a local document or of a missing source) over datasets with 0-3 named graphs "
         "(one possibly registered-but-empty, one missing), through Graph / ConjunctiveGraph / Dataset with the union "
         "switch on and off; non-trivial = the request changed the dataset or a WHERE had at least one solution; "
         "distinct = distinct (api, union, init, request)")
@@ -65,7 +65,9 @@ ASSUMPTIONS = ["the Memory store behind Graph/ConjunctiveGraph/Dataset behaves a
                "being graphs of the dataset the specification oracle abstains (model and implementation are still compared)",
                "literals in full-algebra requests are the typed ones of LIT (= litTable of Model.lean)",
                "BNode() returns identifiers distinct from each other and from every identifier already present",
-               "SPARQL_LOAD_GRAPHS is False (no network); LOAD and CREATE are outside the property's operation list"]
+               "SPARQL_LOAD_GRAPHS is on only for requests with a LOAD (local N-Triples files, no USING in them), off otherwise "
+               "(no network); LOAD and CREATE are outside the property's operation list: LOAD is judged by §3.1.4, every CREATE "
+               "is taken as a failure (rdflib does not implement it) and only abort / SILENT / nothing-changed are judged"]
 TRUSTED = ["harness/c10.py generators, request printer, canonical numbering of minted blank nodes (component-wise exact)",
            "lean/RV/C10/Drive.lean line protocol", "harness/isoutil.py (exact isomorphism decision)",
            "harness/sparqlgen.py (pattern generator, §18 reference evaluator, Python mirror of RV/C04/Safe.lean)",
